@@ -484,7 +484,7 @@ def run_compound(case, out):
                             f.seek(delta, 1)
                             pos += delta
                     elif op == "read":
-                        n = arg % 300
+                        n = 0 if arg % 5 == 0 else arg % 300   # (a zero-length read returns nothing and stays put)
                         got = bytes(f.read(n))
                         if got != ref[pos:pos + n]:
                             out.fail("compound.prog_read", [nm, pos, n])
